@@ -9,9 +9,15 @@ _FOOTER_REST_SAME = ("all(self._bloom[b] == old(self._bloom[b]) for b in range(s
 _COUNT_FIELD = "le_bytes(self._bloom, self._bloom_length + 8, 8)"
 _NO_PENDING = "not self._BloomFilterOnDisk__file_pointer.haspend"
 
+_FILE_OK = [("file_stays_a_valid_current_export", "file_ok(self, old(self._bloom), count0)")]
+_IN_FLIGHT = ("recorded_count_lags_by_at_most_the_addition_in_flight",
+              "self._els_added == count0 or self._els_added == count0 + 1")
+
 contract("BloomFilterOnDisk.__update", contexts=["BloomFilterOnDisk"], properties=["C11", "C14", "C01"],
+         let=[("count0", "le_bytes(self._bloom, self._bloom_length + 8, 8)")],
          requires=["inv_bloom_disk(self)", "fp_open(self)", ("nothing_buffered", _NO_PENDING),
                    ("count_fits_uint64", "0 <= self._els_added < 2**64")],
+         pointwise=_FILE_OK,
          modifies=["self._bloom", "self._BloomFilterOnDisk__file_pointer"],
          ensures=[("recorded_count_is_current", _COUNT_FIELD + " == self._els_added"),
                   ("cells_untouched", "all(self._bloom[b] == old(self._bloom[b]) for b in range(0, self._bloom_length))"),
@@ -21,16 +27,132 @@ contract("BloomFilterOnDisk.__update", contexts=["BloomFilterOnDisk"], propertie
 
 # the base-class body reached through super().add_alt() with an on-disk receiver
 clone_contract("BloomFilter.add_alt", "BloomFilter.add_alt@BloomFilterOnDisk", contexts=["BloomFilterOnDisk"],
-               properties=["C11", "C01"])
+               properties=["C11", "C01"],
+               let=[("count0", "le_bytes(self._bloom, self._bloom_length + 8, 8)")],
+               requires=["inv_bloom_disk(self)", ("enough_hashes", "len(hashes) >= self._number_hashes"),
+                         ("file_is_current", "self._els_added == count0")],
+               pointwise=[("file_stays_a_valid_current_export", "file_ok(self, old(self._bloom), count0)"),
+                          ("recorded_count_lags_by_at_most_the_addition_in_flight",
+                           "self._els_added == count0 or self._els_added == count0 + 1")])
 
 contract("BloomFilterOnDisk.add_alt", contexts=["BloomFilterOnDisk"], properties=["C11", "C01", "C14"],
          params={"hashes": "list[int]"},
+         let=[("count0", "le_bytes(self._bloom, self._bloom_length + 8, 8)")],
          requires=["inv_bloom_disk(self)", "fp_open(self)", ("nothing_buffered", _NO_PENDING),
                    ("enough_hashes", "len(hashes) >= self._number_hashes"),
-                   ("count_fits_uint64", "0 <= self._els_added < 2**64 - 1")],
+                   ("count_fits_uint64", "0 <= self._els_added < 2**64 - 1"),
+                   ("file_is_current", "self._els_added == count0")],
+         pointwise=_FILE_OK + [_IN_FLIGHT],
          modifies=["self._bloom", "self._els_added", "self._BloomFilterOnDisk__file_pointer"],
          ensures=[("bits_exactly_or_of_positions", _BITS_AFTER_ADD.format(n="self._number_hashes")),
                   ("counter_plus_one", "self._els_added == old(self._els_added) + 1"),
                   ("recorded_count_is_current", _COUNT_FIELD + " == self._els_added"),
                   ("rest_of_footer_untouched", _FOOTER_REST_SAME),
                   ("inv", "inv_bloom_disk(self)"), ("still_open_nothing_buffered", "fp_open(self) and " + _NO_PENDING)])
+
+FP = "self._BloomFilterOnDisk__file_pointer"
+_LOADED_DISK = [("estimated_elements", "self._est_elements == le_bytes(old(file_bytes(file)), len(old(file_bytes(file))) - 20, 8)"),
+                ("rate", "self._fpr == f32_at(old(file_bytes(file)), len(old(file_bytes(file))) - 4)"),
+                ("geometry", "geo_bloom(self)"), ("inv", "inv_bloom_disk(self)"),
+                ("the_mapping_is_the_file", "len(self._bloom) == len(old(file_bytes(file))) and "
+                                            "all(self._bloom[i] == old(file_bytes(file))[i] for i in range(0, len(self._bloom)))"),
+                ("stored_count_is_restored", "self._els_added == le_bytes(old(file_bytes(file)), len(old(file_bytes(file))) - 12, 8)"),
+                ("open_nothing_buffered", "fp_open(self) and " + _NO_PENDING),
+                ("on_disk", "self._on_disk == True")]
+
+contract("BloomFilterOnDisk._load", contexts=["BloomFilterOnDisk"], properties=["C11", "C05", "C14", "C01"],
+         params={"file": "key", "hash_function": "opt[hashfunc]"},
+         requires=[("resolved_path", "file == resolve(file)"), ("file_is_there", "file_exists(file)"),
+                   ("well_formed_export", "disk_footer_ok(file_bytes(file))"),
+                   ("byte_cells", "self._typecode == 'B' and self._bits_per_elm == 8.0")],
+         modifies=["self._est_elements", "self._fpr", "self._bloom_length", "self._hash_func", "self._els_added",
+                   "self._number_hashes", "self._num_bits", "self._bloom", FP, "self._on_disk"],
+         ensures=_LOADED_DISK)
+
+contract("BloomFilterOnDisk.close", contexts=["BloomFilterOnDisk"], properties=["C11", "C14"],
+         let=[("count0", "le_bytes(self._bloom, self._bloom_length + 8, 8)"), ("was_open", "fp_open(self)")],
+         requires=["inv_bloom_disk(self)", ("nothing_buffered", "implies(fp_open(self), " + _NO_PENDING + ")"),
+                   ("count_fits_uint64", "0 <= self._els_added < 2**64")],
+         modifies=["self._bloom", FP], pointwise=_FILE_OK,
+         ensures=[("file_holds_the_mapped_bytes_with_the_current_count",
+                   "implies(was_open, len(file_bytes(self._filepath)) == old(len(self._bloom)) and "
+                   "le_bytes(file_bytes(self._filepath), self._bloom_length + 8, 8) == self._els_added and "
+                   "all(file_bytes(self._filepath)[i] == old(self._bloom[i]) for i in range(0, self._bloom_length + 8)) and "
+                   "all(file_bytes(self._filepath)[i] == old(self._bloom[i]) for i in range(self._bloom_length + 16, self._bloom_length + 20)))"),
+                  ("file_exists", "implies(was_open, file_exists(self._filepath))"),
+                  ("closed", "implies(was_open, " + FP + " is None)"),
+                  ("closing_twice_is_harmless", "implies(not was_open, same(self._bloom, old(self._bloom)))")])
+
+contract("BloomFilterOnDisk.clear", contexts=["BloomFilterOnDisk"], properties=["C19", "C11"],
+         requires=["inv_bloom_disk(self)", "fp_open(self)", ("nothing_buffered", _NO_PENDING)],
+         modifies=["self._bloom", "self._els_added", FP],
+         ensures=[("counter_zero", "self._els_added == 0"),
+                  ("cells_zero", "all(self._bloom[b] == 0 for b in range(0, self._bloom_length))"),
+                  ("recorded_count_is_current", _COUNT_FIELD + " == 0"),
+                  ("rest_of_footer_untouched", _FOOTER_REST_SAME),
+                  ("inv", "inv_bloom_disk(self)"), ("still_open_nothing_buffered", "fp_open(self) and " + _NO_PENDING)])
+
+clone_contract("BloomFilter.clear", "BloomFilter.clear@BloomFilterOnDisk", contexts=["BloomFilterOnDisk"], properties=["C19", "C11"])
+
+_DISK_MOD = ["self._est_elements", "self._fpr", "self._bloom_length", "self._hash_func", "self._els_added",
+             "self._number_hashes", "self._num_bits", "self._bloom", FP, "self._on_disk", "self._type"]
+_CREATE = "(est_elements is not None and false_positive_rate is not None)"
+_DISK_INIT_REQ = [("resolved_path", "self._filepath == resolve(self._filepath)"),
+                  ("byte_cells", "self._typecode == 'B' and self._bits_per_elm == 8.0"),
+                  ("new_geometry_usable",
+                   "implies(" + _CREATE + ", est_elements >= 1 and 0 < false_positive_rate < 1 and 0 < f32(false_positive_rate) < 1 and "
+                   "est_elements < 2**64 and bloom_k(est_elements, bloom_m(est_elements, f32(false_positive_rate))) >= 1 and "
+                   "bloom_m(est_elements, f32(false_positive_rate)) < 2**53)"),
+                  ("existing_file_is_an_export",
+                   "implies(not " + _CREATE + ", file_exists(self._filepath) and disk_footer_ok(file_bytes(self._filepath)))")]
+_DISK_INIT_ENS = [
+    ("new_filter_is_empty", "implies(" + _CREATE + ", self._els_added == 0 and self._est_elements == est_elements and "
+                            "self._fpr == f32(false_positive_rate) and all(self._bloom[i] == 0 for i in range(0, self._bloom_length)))"),
+    ("reopened_filter_is_the_file",
+     "implies(not " + _CREATE + ", len(self._bloom) == len(old(file_bytes(self._filepath))) and "
+     "all(self._bloom[i] == old(file_bytes(self._filepath))[i] for i in range(0, len(self._bloom))) and "
+     "self._els_added == le_bytes(old(file_bytes(self._filepath)), len(self._bloom) - 12, 8) and "
+     "self._est_elements == le_bytes(old(file_bytes(self._filepath)), len(self._bloom) - 20, 8) and "
+     "self._fpr == f32_at(old(file_bytes(self._filepath)), len(self._bloom) - 4))"),
+    ("consistent", "disk_consistent(self)"),
+    ("recorded_count_is_current", _COUNT_FIELD + " == self._els_added"),
+    ("open_nothing_buffered", "fp_open(self) and " + _NO_PENDING)]
+
+contract("BloomFilterOnDisk._load_init", contexts=["BloomFilterOnDisk"], properties=["C11", "C14", "C05"],
+         params={"filepath": "key", "hash_function": "opt[hashfunc]", "hex_string": "none",
+                 "est_elements": "opt[int]", "false_positive_rate": "opt[float]"},
+         requires=_DISK_INIT_REQ, modifies=_DISK_MOD + ["fs"], ensures=_DISK_INIT_ENS)
+
+_INIT_P = {"est_elements": "opt[int]", "false_positive_rate": "opt[float]", "filepath": "key", "hex_string": "none",
+           "hash_function": "opt[hashfunc]"}
+# BloomFilter.__init__ body run with an on-disk receiver (super().__init__ from BloomFilterOnDisk.__init__)
+contract("BloomFilter.__init__@BloomFilterOnDisk", contexts=["BloomFilterOnDisk"], properties=["C11"],
+         params=_INIT_P,
+         requires=[("resolved_path", "self._filepath == resolve(self._filepath)")] + _DISK_INIT_REQ[2:],
+         modifies=["self", "fs"], ensures=_DISK_INIT_ENS + [("path_kept", "self._filepath == old(self._filepath)")])
+
+contract("BloomFilterOnDisk.__init__", contexts=["BloomFilterOnDisk"], properties=["C11", "C14", "C05"],
+         params=_INIT_P,
+         requires=[("new_geometry_usable", _DISK_INIT_REQ[2][1]),
+                   ("existing_file_is_an_export",
+                    "implies(not " + _CREATE + ", file_exists(resolve(filepath)) and disk_footer_ok(file_bytes(resolve(filepath))))")],
+         modifies=["self", "fs"],
+         ensures=[(n, t.replace("self._filepath", "resolve(filepath)")) for n, t in _DISK_INIT_ENS]
+         + [("path", "self._filepath == resolve(filepath)")])
+
+contract("BloomFilterOnDisk.__bytes__", contexts=["BloomFilterOnDisk"], properties=["C05", "C11", "C19"],
+         returns="bytes", requires=["inv_bloom_disk(self)"], modifies=[],
+         ensures=[("the_mapped_file", "len(result) == len(self._bloom) and all(result[i] == self._bloom[i] for i in range(0, len(result)))")])
+
+contract("BloomFilterOnDisk.export", contexts=["BloomFilterOnDisk"], properties=["C11", "C05", "C19"],
+         params={"file": "key"}, let=[("count0", "le_bytes(self._bloom, self._bloom_length + 8, 8)")],
+         requires=["inv_bloom_disk(self)", "fp_open(self)", ("nothing_buffered", _NO_PENDING),
+                   ("count_fits_uint64", "0 <= self._els_added < 2**64")],
+         modifies=["self._bloom", FP, "fs"], pointwise=_FILE_OK,
+         ensures=[("recorded_count_is_current", _COUNT_FIELD + " == self._els_added"),
+                  ("cells_untouched", "all(self._bloom[b] == old(self._bloom[b]) for b in range(0, self._bloom_length))"),
+                  ("rest_of_footer_untouched", _FOOTER_REST_SAME),
+                  ("copy_is_the_current_export",
+                   "implies(file != '' and file != self._filepath, len(file_bytes(file)) == len(self._bloom) and "
+                   "all(file_bytes(file)[i] == self._bloom[i] for i in range(0, len(self._bloom))))"),
+                  ("still_open_nothing_buffered", "fp_open(self) and " + _NO_PENDING)])
